@@ -132,3 +132,20 @@ fn k_text_2() { k_text::<2, 4>(); }
 #[kani::unwind(6)]
 #[kani::stub(std::fmt::format, stub_fmt)]
 fn k_text_3() { k_text::<3, 4>(); }
+
+/// C09 / C19: message_type is the top six bits of the first byte; empty input is a recoverable error (lengths 0..=2, all contents;
+/// the function only looks at the first byte)
+#[kani::proof]
+#[kani::unwind(6)]
+fn k_message_type() {
+    let buf: [u8; 2] = kani::any();
+    let n: usize = kani::any();
+    kani::assume(n <= 2);
+    let r = message_type(&buf[..n]);
+    if n == 0 {
+        assert!(matches!(r, Err(nom::Err::Error(_))));
+    } else {
+        let (_rest, t) = r.unwrap();
+        assert!(t == buf[0] >> 2);
+    }
+}
